@@ -58,11 +58,13 @@ def tiny_prog(nest, combo):
     return prog
 
 
-def compare_one(ctx, prog, watch, kind):
+def compare_one(ctx, prog, watch, kind, cloned=None):
+    """cloned = (program, alias) from gen.cloneify: that program is really run, its clones reported under the names of the
+    auxiliary framers they stand for, and compared with the reference run of `prog`"""
     from vf.flo import runner, refint, compare
-    text = P.render(prog)
+    text = P.render(cloned[0] if cloned else prog)
     cap = prog["ticks"] + 12
-    res = runner.run_text(text, maxticks=cap, watch=watch)
+    res = runner.run_text(text, maxticks=cap, watch=watch, alias=cloned[1] if cloned else None)
     if not res.built:
         # the generators only emit well-formed scripts (they all build on the reference semantics' side)
         ctx.fail("well-formed-program-rejected", "a well-formed generated program did not build: %r %s" % (
@@ -108,6 +110,20 @@ def compare_one(ctx, prog, watch, kind):
 
 
 def worker(ctx, job):
+    if job["kind"] == "twin":
+        # two scheduled framers each running its own clone of one moot framer under the same clone tag, the moot's
+        # transitions guarded by `is updated` / `is changed`: each clone must run as the marker-rule reference (the
+        # model of the C20 check) says the framer itself runs
+        from vf.checks import c20
+        for case in job["items"]:
+            nf = len(ctx.fails)
+            c20.check_case(ctx, case)
+            for f in ctx.fails[nf:]:
+                f["key"] = "twin-clones/" + f["key"]
+            for k in list(ctx.fail_counts):
+                if k.startswith("marker-condition/"):
+                    ctx.fail_counts["twin-clones/" + k] = ctx.fail_counts.get("twin-clones/" + k, 0) + ctx.fail_counts.pop(k)
+        return
     if job["kind"] == "tiny":
         for nest, combo in job["items"]:
             compare_one(ctx, tiny_prog(nest, combo), [".c0"], "tiny")
@@ -118,6 +134,12 @@ def worker(ctx, job):
             prog = gen.gen_program(rng, gen.pickfeat(FEATS, fi))
             compare_one(ctx, prog, gen.WATCH, "random/%d" % fi)
             ctx.hit("random_programs")
+            # the same program with auxiliary framers turned into clones of moot framers: same reference run
+            p2, alias = gen.cloneify(prog, random.Random(seed ^ 0x5EED))
+            if alias:
+                compare_one(ctx, prog, gen.WATCH, "cloned/%d" % fi, cloned=(p2, alias))
+                ctx.hit("cloned_aux_variants")
+                ctx.hit("cloned_aux_framers", len(alias))
 
 
 def run(ctx):
@@ -131,8 +153,14 @@ def run(ctx):
     items = [(ctx.rng.randrange(1 << 30), i % gen.nfeats(FEATS, ctx)) for i in range(nrand)]
     n = 16
     jobs = [{"kind": "tiny", "items": tiny[i::n]} for i in range(n)] + [{"kind": "rand", "items": items[i::n]} for i in range(n)]
+    from vf.checks import c20
+    opts = c20.need_opts()
+    twins = [c20.random_case(ctx.rng, opts, twin=True) for _ in range(ctx.pick(240, 8000))]
+    jobs += [{"kind": "twin", "items": twins[i::n]} for i in range(n)]
+    ctx.floor("twin_clone_histories", 50)
     ctx.shard(jobs, timeout=ctx.pick(300, 1500))
     ctx.floor("distinct_nontrivial", 300)
+    ctx.floor("cloned_aux_variants", 20)
     for fl in ("transition", "transition_refused", "guard_refused", "aux_entered", "condaux_activated", "condaux_truncated",
                "fiat_start", "start_failed"):
         ctx.floor("sem_" + fl, 5)
